@@ -26,8 +26,21 @@ Variants of the implementation: the four above and, for the short exhaustive seq
 ones, the same classes driven through doit's Dependency object (_set/_get/_in/remove/remove_all/close).
 For transport to Coq a sequence and an observation list are packed into one number each (see PRE);
 on a disagreement the sequence is sent again as a literal to fetch the model's answers.
+
+Parts: A exhaustive short sequences, B random long ones (fixed pools of unicode ids / nested values), and two
+dimensions that are not about the sequence but about the text that travels through the codec and the file:
+  C  STRINGS (c07_strings.py): task ids, keys and the strings inside values drawn class by class (ascii, latin-1,
+     BMP, non-BMP, combining, control incl. NUL, separators/BOM, non-characters, JSON/SQL/format meta text, empty,
+     long; for keys and values also surrogateescape strings = undecodable file names as os.fsdecode returns them),
+     look-alikes side by side in one table.  Oracle = the same dict of dicts: different strings are different
+     entries, a value comes back code point for code point, no operation raises.
+  D  LOCALE: the same in a child python that is NOT in UTF-8 mode (LC_ALL=C, PYTHONUTF8=0, PYTHONCOERCECLOCALE=0)
+     where every session runs under a locale of its own (locale.setlocale before the object is created; open()
+     without encoding= follows it): JsonDB keeps its document in a text file.  Model: run_json_text in
+     Model/Backends.v, theorem C07_json_locale_independent (hypothesis text_ok = what this part checks).
+Both are run on all seven variants and compared with the same Coq models (the strings are indices there).
 """
-import concurrent.futures, itertools, multiprocessing, os, shutil
+import concurrent.futures, itertools, json, multiprocessing, os, shutil, subprocess, sys
 import common
 from common import Outcome
 
@@ -76,6 +89,9 @@ Definition check (nt nk nv : nat) (l : list (nat * Z * expd)) : list Z :=
 VARIANTS = ('json', 'dbm', 'dbm.dumb', 'sqlite3')
 DEP_VARIANTS = ('Dependency/json', 'Dependency/dbm', 'Dependency/sqlite3')
 MODEL_OF = {'json': 0, 'dbm': 1, 'dbm.dumb': 1, 'sqlite3': 2, 'Dependency/json': 0, 'Dependency/dbm': 1, 'Dependency/sqlite3': 2}
+# part D runs the same seven in a child process that is not in UTF-8 mode, every session under a locale of its own
+LOC = 'locale:'
+MODEL_OF.update({LOC + v: m for v, m in list(MODEL_OF.items())})
 
 
 # ------------------------------------------------------------------ values
@@ -136,11 +152,16 @@ def make_db(variant, path):
     return SqliteDB(path, JSONCodec())
 
 
-def run_impl(variant, wdir, ops, tasks, keys, vals, cvals):
+def run_impl(variant, wdir, ops, tasks, keys, vals, cvals, session_hook=None):
+    """session_hook(n), if given, is called before the n-th session's object is created (n = 0, 1, ..): part D
+    uses it to switch the locale the next session runs under (the object of session n is also dumped under it)"""
     path = os.path.join(wdir, 'db')
     obs = []
     db = None
+    session = 0
     try:
+        if session_hook:
+            session_hook(0)
         db = make_db(variant, path)
     except BaseException:  # noqa
         return [98] * len(ops)
@@ -170,6 +191,9 @@ def run_impl(variant, wdir, ops, tasks, keys, vals, cvals):
                 obs.append(-2 if r is None else 97)
             else:
                 db.dump()
+                session += 1
+                if session_hook:
+                    session_hook(session)
                 db = make_db(variant, path)
                 obs.append(-2)
         except BaseException:  # noqa
@@ -178,6 +202,8 @@ def run_impl(variant, wdir, ops, tasks, keys, vals, cvals):
         db.dump()
     except BaseException:  # noqa
         pass
+    if session_hook:
+        session_hook(-1)
     for f in os.listdir(wdir):
         os.unlink(os.path.join(wdir, f))
     return obs
@@ -346,6 +372,172 @@ def compare_with_model(ctx, preamble, cases):
     return [(i, common.parse_zlist(o)) for i, o in enumerate(outs) if o != 'None']
 
 
+# ------------------------------------------------------------------ part C: what the strings are
+def session_seq(rng, nt, nk, nv):
+    """a random sequence that (mostly) starts with a record saved by an earlier session -- it has to be there after
+    whatever happens later -- and (half of the time) stores every key x value of the tables"""
+    pre = []
+    if rng.random() < 0.7:
+        pre = [('S', rng.randrange(nt), rng.randrange(nk), rng.randrange(nv)), ('R',)]
+    body = list(random_seq(rng, nt, nk, nv, rng.choice([3, 6, 10, 16])))
+    if rng.random() < 0.5:
+        allsets = [('S', rng.randrange(nt), k, v) for k in range(nk) for v in range(nv)]
+        rng.shuffle(allsets)
+        pos = rng.randint(0, len(body))
+        body[pos:pos] = allsets
+    return tuple(pre + body)
+
+
+# look-alike strings side by side, every short sequence over them (see c07_strings.py)
+X_TASKS = ['\xe9', 'e\u0301']          # NFC / NFD
+X_KEYS = ['caf\udce9.txt', 'caf\xe9.txt']
+X_VALS = ['\udce9', {'caf\udce9': ['\udcff\udcfe', '\xe9', '\\udce9'], 'e\u0301': '\x00'}]
+
+
+def count_strings(out, tasks, keys, vals):
+    import c07_strings as S
+    for t in tasks:
+        out.count('strings:task-id:' + S.classify(t))
+    for k in keys:
+        out.count('strings:key:' + S.classify(k))
+    for v in vals:
+        for x in set(S.strings_of(v)):
+            out.count('strings:inside-value:' + S.classify(x))
+
+
+def surrogate_task_probe(base):
+    """OUTSIDE the property's domain, recorded not judged: a task id with a lone surrogate (not encodable in UTF-8)"""
+    wdir = os.path.join(base, 'probe')
+    os.makedirs(wdir, exist_ok=True)
+    ops = [('S', 0, 0, 0), ('I', 0), ('G', 0, 0), ('R',), ('I', 0), ('G', 0, 0)]
+    ref = run_ref(ops, 1)
+    res = {}
+    for var in VARIANTS + DEP_VARIANTS:
+        ob = run_impl(var, wdir, ops, ['sub:caf\udce9.txt'], ['k'], [1], [canon(1)])
+        res[var] = 'answers as the map' if ob == ref else 'differs from the map (98 = raised): %s' % ob
+    return res
+
+
+# ------------------------------------------------------------------ part D: sessions under other locales
+LOCALE_CANDIDATES = ['C', 'POSIX', 'C.UTF-8', 'C.utf8', 'en_US.UTF-8', 'en_US.utf8', 'en_US.ISO-8859-1', 'en_US.iso88591',
+                     'de_DE.ISO-8859-15', 'de_DE@euro', 'ru_RU.KOI8-R', 'ru_RU.CP1251', 'ja_JP.eucJP', 'ja_JP.SJIS',
+                     'zh_CN.GB18030', 'zh_TW.Big5', 'ko_KR.eucKR', 'el_GR.ISO-8859-7', 'tr_TR.ISO-8859-9', 'th_TH.TIS-620']
+
+
+def child_env():
+    """a python that takes the text encoding of open() from the locale: no UTF-8 mode, no locale coercion, LC_ALL=C
+    (= what open() does on a POSIX system without a UTF-8 locale, and what it does on Windows with a legacy code page)"""
+    e = dict(os.environ)
+    for k in list(e):
+        if k.startswith('LC_') or k in ('LANG', 'LANGUAGE'):
+            del e[k]
+    e.update(LC_ALL='C', PYTHONUTF8='0', PYTHONCOERCECLOCALE='0', PYTHONHASHSEED='0', PYTHONIOENCODING='utf-8')
+    return e
+
+
+def start_child(mode, job, jobfile):
+    with open(jobfile, 'w', encoding='ascii') as f:
+        json.dump(job, f)                           # ensure_ascii: lone surrogates travel as \udcxx
+    outfile = jobfile + '.out'
+    p = subprocess.Popen([sys.executable, os.path.abspath(__file__), mode, jobfile, outfile], env=child_env(),
+                         stdout=subprocess.PIPE, stderr=subprocess.STDOUT)
+    return p, outfile
+
+
+def finish_child(p, outfile, timeout=3000):
+    txt, _ = p.communicate(timeout=timeout)
+    if p.returncode != 0 or not os.path.exists(outfile):
+        raise RuntimeError('C07 locale child failed (rc=%s): %s' % (p.returncode, txt.decode('utf-8', 'replace')[-2000:]))
+    with open(outfile, encoding='ascii') as f:
+        return json.load(f)
+
+
+def probe_locales(ctx):
+    """[(locale name, codec name)] one per distinct text encoding the C library offers here, the ASCII one first;
+    [] if a child python that follows the locale cannot be had"""
+    cands = list(LOCALE_CANDIDATES)
+    try:
+        rc, o, _ = common.sh(['locale', '-a'], timeout=20)
+        cands += [x.strip() for x in o.splitlines() if x.strip()]
+    except Exception:  # noqa
+        pass
+    p, outfile = start_child('--locale-probe', dict(candidates=sorted(set(cands))), os.path.join(ctx.subdir('loc'), 'probe.json'))
+    res = finish_child(p, outfile, 120)
+    if res['utf8_mode']:
+        return []
+    by_codec = {}
+    for name in sorted(res['locales'], key=lambda n: (n != 'C', n)):
+        by_codec.setdefault(res['locales'][name], name)
+    if 'ascii' not in by_codec:
+        return []
+    rest = sorted((c, n) for c, n in by_codec.items() if c != 'ascii')
+    return [(by_codec['ascii'], 'ascii')] + [(n, c) for c, n in rest][:5]
+
+
+def _child_main(argv):
+    """entry of the child process (python harness/c07.py --locale-probe|--locale-run JOB OUT)"""
+    import codecs, locale
+    mode, jobfile, outfile = argv
+    with open(jobfile, encoding='ascii') as f:
+        job = json.load(f)
+    res = dict(utf8_mode=sys.flags.utf8_mode)
+    if mode == '--locale-probe':
+        res['locales'] = {}
+        for name in job['candidates']:
+            try:
+                locale.setlocale(locale.LC_CTYPE, name)
+                res['locales'][name] = codecs.lookup(locale.getencoding()).name
+            except Exception:  # noqa
+                pass
+    else:
+        common.use_repo()
+        wdir = os.path.join(job['base'], 'c%d' % os.getpid())
+        os.makedirs(wdir, exist_ok=True)
+        seen = set()
+        results = []
+        for g in job['groups']:
+            tasks, keys, vals = g['tasks'], g['keys'], g['vals']
+            cvals = [canon(v) for v in vals]
+            tl = tail_ops(len(tasks), len(keys))
+            gres = []
+            for ops, locs in zip(g['seqs'], g['locs']):
+                full = [tuple(o) for o in ops] + tl
+
+                def hook(n, locs=locs):
+                    # the locale of session n (the last one given also for later ones); -1 = the run is over
+                    locale.setlocale(locale.LC_CTYPE, 'C' if n < 0 else locs[min(n, len(locs) - 1)])
+                    if n >= 0:
+                        with open(os.path.join(job['base'], 'enc%d' % os.getpid()), 'w') as fobj:   # what open() does now
+                            seen.add(codecs.lookup(fobj.encoding).name)
+                ref = run_ref(full, len(vals))
+                diff = {}
+                for var in job['variants']:
+                    ob = run_impl(var, wdir, full, tasks, keys, vals, cvals, session_hook=hook)
+                    if ob != ref:
+                        diff[var] = ob
+                gres.append([ref, diff])
+            results.append(gres)
+        res['results'] = results
+        res['open_encodings_seen'] = sorted(seen)
+    with open(outfile, 'w', encoding='ascii') as f:
+        json.dump(res, f)
+    return 0
+
+
+def session_locales(rng, ops, nt, nk, avail):
+    """one locale per session of ops + tail (sessions = 1 + number of reopens)"""
+    n = 1 + sum(1 for o in list(ops) + tail_ops(nt, nk) if o[0] == 'R')
+    names = [a[0] for a in avail]
+    style = rng.choice(['all-ascii', 'all-ascii', 'mixed', 'mixed', 'one-other']) if len(names) > 1 else 'all-ascii'
+    if style == 'all-ascii':
+        return style, [names[0]] * n
+    if style == 'one-other':
+        locs = [names[0]] * n
+        locs[rng.randrange(n)] = rng.choice(names[1:])
+        return style, locs
+    return style, [rng.choice(names) for _ in range(n)]
+
+
 # ------------------------------------------------------------------ main
 def run(ctx):
     out = Outcome()
@@ -366,6 +558,9 @@ def run(ctx):
 
 
 def _run(ctx, out, rng, base):
+    import time
+    t0 = time.time()
+    phase = out.extra.setdefault('phase_s', {})
     groups = []   # (label, tasks, keys, vals, [seq...], variants)
     all_variants = VARIANTS + DEP_VARIANTS
     # A. exhaustive over 2 tasks x 2 keys x 2 values
@@ -405,10 +600,66 @@ def _run(ctx, out, rng, base):
         groups.append(('rnd', tasks, keys, vals, [random_seq(rng, nt, nk, nv, n)], all_variants))
         out.count('random:len<=%d' % (10 if n <= 10 else 20 if n <= 20 else 40))
 
+    # C. the strings: task ids / keys / strings inside values class by class (c07_strings.py), look-alikes side by
+    #    side, strings with lone surrogates (undecodable file names) as keys and inside values
+    import c07_strings as S
+    thorough = not ctx.quick
+    for ci in range(ctx.n(300, 5000)):
+        nt, nk, nv = rng.choice([1, 2, 3]), rng.choice([1, 2, 3]), rng.choice([1, 2, 3, 4])
+        tasks, keys, vals = S.make_tables(rng, nt, nk, nv, thorough)
+        groups.append(('str', tasks, keys, vals, [session_seq(rng, nt, nk, nv)], all_variants))
+        count_strings(out, tasks, keys, vals)
+        out.count('strings:cases')
+    xl = ctx.n(2, 3)
+    xseqs = [sq for n in range(1, xl + 1) for sq in itertools.product(al, repeat=n)]
+    groups.append(('str', X_TASKS, X_KEYS, X_VALS, xseqs, all_variants))
+    out.count('strings:look-alike-tables:exhaustive:len<=%d' % xl, len(xseqs))
+    # D. the locale: the same classes in a python that takes open()'s encoding from the locale (no UTF-8 mode),
+    #    every session under a locale of its own
+    glocs = {}
+    avail = probe_locales(ctx)
+    out.extra['locales_used_by_part_D'] = ['%s (%s)' % a for a in avail] or 'NONE: no child python that follows the locale, part D not run'
+    loc_variants = tuple(LOC + v for v in all_variants)
+    if avail:
+        for ci in range(ctx.n(150, 2500)):
+            nt, nk, nv = rng.choice([1, 2, 3]), rng.choice([1, 2]), rng.choice([1, 2, 3])
+            tasks, keys, vals = S.make_tables(rng, nt, nk, nv, False)
+            seq = session_seq(rng, nt, nk, nv)
+            style, locs = session_locales(rng, seq, nt, nk, avail)
+            glocs[len(groups)] = [locs]
+            groups.append(('loc', tasks, keys, vals, [seq], loc_variants))
+            count_strings(out, tasks, keys, vals)
+            out.count('locale:sessions:' + style)
+        dl = ctx.n(2, 3)
+        dseqs = [sq for n in range(1, dl + 1) for sq in itertools.product(al, repeat=n)]
+        out.count('locale:all-ascii:exhaustive:len<=%d' % dl, len(dseqs))
+        for s0 in range(0, len(dseqs), 350):
+            part = dseqs[s0:s0 + 350]
+            glocs[len(groups)] = [[avail[0][0]]] * len(part)
+            groups.append(('loc', ex_tasks, ex_keys, ex_vals, part, loc_variants))
+    out.extra['outside_domain_probe:task_id_with_lone_surrogate'] = surrogate_task_probe(base)
+
+    phase['generate+probe'] = round(time.time() - t0, 1)
+    # ---- part D runs in child processes, started now, collected after the pool below
+    children = []
+    if glocs:
+        nch = ctx.n(3, 8)
+        dg = sorted(glocs)
+        for j in range(nch):
+            mine = dg[j::nch]
+            if not mine:
+                continue
+            job = dict(base=base, variants=list(all_variants),
+                       groups=[dict(tasks=groups[g][1], keys=groups[g][2], vals=groups[g][3],
+                                    seqs=[[list(o) for o in sq] for sq in groups[g][4]], locs=glocs[g]) for g in mine])
+            children.append((mine, ) + start_child('--locale-run', job, os.path.join(ctx.subdir('loc'), 'job%d.json' % j)))
+
     # ---- run the implementation (worker processes; every choice was made above)
     jobs, index = [], []       # index[j] = (group, offset)
     for gi, (label, tasks, keys, vals, sq, variants) in enumerate(groups):
         step = 400
+        if label == 'loc':
+            continue
         for s in range(0, len(sq), step):
             jobs.append((base, tasks, keys, vals, sq[s:s + step], variants))
             index.append((gi, s))
@@ -418,6 +669,20 @@ def _run(ctx, out, rng, base):
     with concurrent.futures.ProcessPoolExecutor(max_workers=nw, mp_context=mp) as ex:
         for (gi, s), res in zip(index, ex.map(work, jobs, chunksize=4)):
             results[gi][s:s + len(res)] = res
+    phase['pool'] = round(time.time() - t0, 1)
+    seen_enc = set()
+    for mine, p, outfile in children:
+        res = finish_child(p, outfile)
+        if res['utf8_mode']:
+            raise RuntimeError('C07 part D: the child python runs in UTF-8 mode')
+        seen_enc.update(res['open_encodings_seen'])
+        for g, gres in zip(mine, res['results']):
+            results[g] = [(ref, {LOC + v: ob for v, ob in diff.items()}) for ref, diff in gres]
+    phase['children'] = round(time.time() - t0, 1)
+    if glocs:
+        out.extra['encodings_open()_used_in_part_D'] = sorted(seen_enc)
+        if sorted(seen_enc) != sorted({a[1] for a in avail if any(a[0] in l for ll in glocs.values() for l in ll)}):
+            raise RuntimeError('C07 part D: open() did not follow the session locales: %s' % sorted(seen_enc))
 
     # ---- property oracle + model cases (batched per table shape: Coq only sees indices)
     cases, case_members = [], []
@@ -438,14 +703,24 @@ def _run(ctx, out, rng, base):
             kinds = {o[0] for o in ops}
             if 'S' in kinds and (kinds & {'D', 'X', 'R'}):
                 out.nontrivial.add((label if label == 'exh' else gi, ops))
+            elif label in ('str', 'loc') and 'S' in kinds:
+                out.nontrivial.add((gi, ops))      # the tail closes and reopens: the stored strings make the whole trip
             for var, ob in diff.items():
                 kind = first_diff_kind(full, ob, ref)
                 bad_val = 97 in ob
-                out.violations.append(dict(
-                    what=('%s backend answered differently from a plain dict of dicts (first at a %s)%s: observed %s, map %s'
-                          % (var, kind, '; a value did not round-trip unchanged' if bad_val else '', ob, ref)),
-                    shape='differs-from-map:%s:%s' % (var, 'value' if bad_val else kind),
-                    case=dict(backend=var, tasks=tasks, keys=keys, values=vals, ops=[list(o) for o in full])))
+                case = dict(backend=var, tasks=tasks, keys=keys, values=vals, ops=[list(o) for o in full])
+                what = ('%s backend answered differently from a plain dict of dicts (first at a %s)%s: observed %s, map %s'
+                        % (var, kind, '; a value did not round-trip unchanged' if bad_val else '', ob, ref))
+                shape = 'differs-from-map:%s:%s' % (var, 'value' if bad_val else kind)
+                if label == 'str':
+                    shape = 'c07:strings:%s:%s' % (var, 'value' if bad_val else kind)
+                    what += ' -- strings of the case (98 = the call raised): task ids %a, keys %a, values %a' % (tasks, keys, vals)
+                elif label == 'loc':
+                    shape = 'c07:locale:%s:%s' % (var[len(LOC):], 'value' if bad_val else kind)
+                    case.update(backend=var[len(LOC):], locales=glocs[gi][si])
+                    what += (' -- in a python without UTF-8 mode, the sessions under the locales %s (98 = the call raised): '
+                             'task ids %a, keys %a, values %a' % (glocs[gi][si], tasks, keys, vals))
+                out.violations.append(dict(what=what, shape=shape, case=case))
             if diff:
                 exp = 'V [%s]' % '; '.join('(%d, %d)' % (MODEL_OF[v], enc_obs(diff.get(v, ref))) for v in variants)
             else:
@@ -458,24 +733,48 @@ def _run(ctx, out, rng, base):
             cases.append(dict(model='check %d %d %d [%s]' % (nt, nk, nv, '; '.join(p[1] for p in part)), expected=[],
                               desc=((nt, nk, nv), s)))
             case_members.append([p[0] for p in part])
+    # spread the batches round-robin over the shards compare_with_model cuts (contiguous pieces, one per core): the long
+    # random sequences of parts B, C, D sit next to each other in this list and would all land in the same few shards
+    order = [i for j in range(common.NCPU) for i in range(j, len(cases), common.NCPU)]
+    cases = [cases[i] for i in order]
+    case_members = [case_members[i] for i in order]
     out.evaluations = nseq
     out.extra['implementation_runs'] = n_var_runs
     out.rule = ('every operation sequence over {set,get,in_,remove,remove_all,reopen} x 2 tasks x 2 keys x 2 values (18 letters) up to length %d, '
                 'one representative per renaming of tasks/keys/values at length %d%s, and random sequences of length 6..40 over up to 4 unicode task ids, '
                 '3 keys, 5 nested JSON values; each followed by reopen + in_/get of everything; each run on JsonDB, DbmDB (default module), '
-                'DbmDB(dbm.dumb), SqliteDB, and (lengths <= 3 and the random ones) on the three classes driven through doit\'s Dependency object.  non-trivial = distinct sequence with a set and at least one of remove / remove_all / reopen'
-                % (full_len, canon_len, (', a sample at length %d' % (canon_len + 1)) if ctx.quick else ''))
+                'DbmDB(dbm.dumb), SqliteDB, and (lengths <= 3 and the random ones) on the three classes driven through doit\'s Dependency object.  '
+                'STRINGS (part C): %d random session sequences over tables whose task ids are drawn class by class from strings of Unicode scalar values '
+                '(ascii, latin-1, BMP, non-BMP, combining/NFD, control incl. NUL, separators/BOM, non-characters, JSON/SQL/format meta text, empty, long) and whose '
+                'keys and strings inside values are drawn from the same classes plus surrogateescape strings (os.fsdecode of file names that are not UTF-8: lone '
+                'low surrogates), look-alikes side by side; plus every sequence up to length %d over one table of look-alikes; all seven variants.  '
+                'LOCALE (part D): %s.  '
+                'non-trivial = distinct sequence with a set and at least one of remove / remove_all / reopen (parts C, D: with a set; the tail reopens)'
+                % (full_len, canon_len, (', a sample at length %d' % (canon_len + 1)) if ctx.quick else '', ctx.n(300, 5000), xl,
+                   ('%d such sequences (no long strings) and every sequence up to length %d over the table of part A, run by a child python that is not in UTF-8 mode '
+                    '(LC_ALL=C, PYTHONUTF8=0, PYTHONCOERCECLOCALE=0: open() without encoding= follows the locale), each session under a locale of its own out of %s '
+                    '(all-ASCII, one other, mixed), all seven variants' % (ctx.n(150, 2500), dl, [a[0] for a in avail])) if avail else 'not run (see locales_used_by_part_D)'))
     g0 = groups[0]
     ex_i = min(len(g0[4]) - 1, 5000)
     out.samples.append(dict(tasks=g0[1], keys=g0[2], values=g0[3], ops=[list(o) for o in g0[4][ex_i]], then='reopen; in_/get of everything',
                             observed_by_all_variants=results[0][ex_i][0]))
-    g1 = groups[-1]
+    gs = [g for g in range(len(groups)) if groups[g][0] == 'str'][0]
+    out.samples.append(dict(part='C strings', tasks=groups[gs][1], keys=groups[gs][2], values=groups[gs][3], ops=[list(o) for o in groups[gs][4][0]],
+                            then='reopen; in_/get of everything', observed_by_all_variants=results[gs][0][0]))
+    if glocs:
+        gl = min(glocs)
+        out.samples.append(dict(part='D locale', tasks=groups[gl][1], keys=groups[gl][2], values=groups[gl][3], ops=[list(o) for o in groups[gl][4][0]],
+                                session_locales=glocs[gl][0], then='reopen; in_/get of everything', observed_by_all_variants=results[gl][0][0]))
+    g1 = [g for g in groups if g[0] == 'rnd'][-1]
+    r1 = results[max(g for g in range(len(groups)) if groups[g][0] == 'rnd')]
     out.samples.append(dict(tasks=g1[1], keys=g1[2], values=g1[3], ops=[list(o) for o in g1[4][0]], then='reopen; in_/get of everything',
-                            observed_by_all_variants=results[-1][0][0]))
+                            observed_by_all_variants=r1[0][0]))
 
+    phase['oracle'] = round(time.time() - t0, 1)
     # ---- model side
     bad = compare_with_model(ctx, PRE, cases)
     out.traces_validated = n_var_runs
+    phase['coq'] = round(time.time() - t0, 1)
     failing = []
     for ci, idxs in bad:
         for j in idxs:
@@ -501,6 +800,11 @@ def _run(ctx, out, rng, base):
         'JSONCodec (json.JSONEncoder/JSONDecoder) is an oracle: the theorems assume decode(encode(x)) = x; the harness checks it on the objects '
         'returned by get (unicode ids/keys, nested values, falsy values), never proves it',
         'values stored are JSON values other than a top-level None (get answers None for a missing entry; doit never stores None)',
+        'strings: a task id is a string of Unicode scalar values; keys and strings inside values may also hold lone low surrogates U+DC80..DCFF (what '
+        'os.fsdecode gives for file names that are not UTF-8).  A task id with a lone surrogate is outside the domain (not encodable in UTF-8; the dbm and '
+        'sqlite3 backends raise UnicodeEncodeError on it, the json backend does not): probed and recorded under outside_domain_probe, not judged',
+        'JsonDB reads/writes its file as text in the encoding of the locale (no encoding=): theorem C07_json_locale_independent assumes text_ok (the document '
+        'survives any locale because it is all ASCII); part D checks that on the real classes under the locales this machine has, never proves it',
         'a session always ends with dump() (Dependency.close); abandoned sessions / crashes belong to C06',
         'dbm = dbm.dumb (the only dbm implementation importable here); the dbm module, sqlite3 and the file system are libraries, exercised not proved',
     ]
@@ -519,6 +823,17 @@ def replay(ctx, payload):
     wdir = ctx.subdir('replay')
     ref = run_ref(ops, len(vals))
     status = 0
+    if case.get('locales'):
+        # part D: the same python as the check used (no UTF-8 mode, LC_ALL=C), the sessions under the recorded locales
+        tl = len(tail_ops(len(tasks), len(keys)))
+        job = dict(base=wdir, variants=[case['backend']] if case.get('backend') else list(VARIANTS),
+                   groups=[dict(tasks=tasks, keys=keys, vals=vals, seqs=[[list(o) for o in ops[:len(ops) - tl]]], locs=[case['locales']])])
+        res = finish_child(*start_child('--locale-run', job, os.path.join(wdir, 'job.json')))
+        ref, diff = res['results'][0][0]
+        for var in job['variants']:
+            print(var, 'under', case['locales'], diff.get(var, ref))
+        print('map', ref)
+        return 1 if diff else 0
     for var in ([case['backend']] if case.get('backend') else VARIANTS):
         ob = run_impl(var, wdir, ops, tasks, keys, vals, [canon(v) for v in vals])
         print(var, ob)
@@ -526,3 +841,7 @@ def replay(ctx, payload):
             status = 1
     print('map', ref)
     return status
+
+
+if __name__ == '__main__':
+    sys.exit(_child_main(sys.argv[1:]))
